@@ -17,7 +17,9 @@
    STATE MACHINE = the public writer API: Emit, EmitConst, AddConst (CPad), CreateLabel, DefineLabel, BindLabel,
    EmitJump, EmitLoop, AddJumpTable, Generate.  `items` is the history of calls (one TLC state per call sequence).
 
-   THEOREM (checked by TLC on every generated body, invariants RoundTrip..LinesOK):
+   THEOREM (checked by TLC on every generated body: invariant TheoremAndRow = RoundTrip /\ OffsetsIncrease /\
+   LabelTable /\ JumpTables /\ LinesOK, evaluated with one ReadCode per state; the same invariant prints the row
+   [items, expected code, instruction list, labels, pool, line table] that the harness replays into the real writer):
      Read(Write(is)) = is, offsets strictly increase from 0, the reader stops exactly at the end, every jump
      lands on the first byte of the instruction that followed its label's bind (= the writer's label table),
      jump-table entries likewise, every emit_const_* reads back the index of its own pool entry.
@@ -254,6 +256,11 @@ OpcodesStep ==
         \/ op \in Calls /\ \E n \in {0, 127, 128} : Emit(op, ManyArgs(n), 1)
   \/ items = <<>> /\ \E n \in PoolVals : CPad(n)
   \/ (items = <<>> \/ LastIs("cpad")) /\ \E op \in ConstOps : EmitConst(op, IF LastIs("cpad") THEN 1 ELSE 300, op + 7)
+  \/ items = <<>> /\ (CreateLabel \/ DefineLabel)                                        \* the four jump opcodes, alone
+  \/ LastIs("create") /\ \E op \in FwdJumps, x \in Vals : (op = OpJump => x = 0) /\ EmitJump(op, x, 1, 0)
+  \/ LastIs("jump") /\ BindLabel(1)
+  \/ LastIs("define") /\ (EmitLoop(1) \/ \E n \in {127, 128} : Pad(n))
+  \/ LastIs("pad") /\ EmitLoop(1)
 
 Menu == {[op |-> 0, v |-> Vec(0, p, x), loc |-> 0] : p \in 1..3, x \in Vals}
    \cup {[op |-> 19, v |-> Vec(19, p, x), loc |-> 0] : p \in 1..2, x \in Vals}
@@ -286,7 +293,7 @@ PoolStep ==
   \/ Len(labels) < MaxLabels /\ ~LastIs("define") /\ DefineLabel
   \/ \E l \in 1..Len(labels) : Referenced(l) /\ BindLabel(l)
   \/ NKind("jtable") < 1 /\ Len(labels) >= 1 /\
-       \E ts \in {<<>>, [i \in 1..(Len(labels) - 1) |-> i], <<Len(labels), Len(labels)>>} : AddJumpTable(ts, Len(labels))
+       \E ts \in {<<>>, [i \in 1..(Len(labels) - 1) |-> i], <<Len(labels), 1>>, <<1, Len(labels), 1>>} : AddJumpTable(ts, Len(labels))
   \/ \E i \in 1..Len(tables) : Emit(OpSwitch, <<129, tables[i].idx>>, 0)
 
 Step == IF Mode = "opcodes" THEN OpcodesStep ELSE IF Mode = "operands" THEN OperandsStep
@@ -297,33 +304,41 @@ Next == ~done /\ ((GenOK /\ Generate) \/ (Len(items) < MaxItems /\ Step))
 Spec == Init /\ [][Next]_vars
 
 -----------------------------------------------------------------------------
-(* the theorem, checked on every generated body *)
+(* the theorem, checked on every generated body; r = ReadCode(code) is computed once per invariant *)
 IsInstr(it) == it.k \in {"inst", "const", "jump", "loop", "pad"}
 A == SelectSeq(items, IsInstr)
-R == ReadCode(code)
 NInstrBefore(i) == Cardinality({j \in 1..(i - 1) : IsInstr(items[j])})
 BindIdx(l) == CHOOSE i \in 1..Len(items) : (items[i].k \in {"define", "bind"} /\ items[i].l = l)
 Bound(l) == \E i \in 1..Len(items) : items[i].k \in {"define", "bind"} /\ items[i].l = l
-LabelOff(l) == LET c == NInstrBefore(BindIdx(l)) IN IF c < Len(R) THEN R[c + 1].off ELSE CodeLen(code)
+(* where a label points according to the READER: the first byte of the instruction that followed its bind *)
+LabelOff(r, l) == LET c == NInstrBefore(BindIdx(l)) IN IF c < Len(r) THEN r[c + 1].off ELSE CodeLen(code)
 Last(s) == s[Len(s)]
-Match(a, r) ==
-  CASE a.k = "inst"  -> r.op = a.op /\ r.v = a.v
-    [] a.k = "const" -> r.op = a.op /\ r.v[1] = a.v[1] /\ PoolAt(pool, r.v[2]) = PConst(a.op, a.v[2])
-    [] a.k = "pad"   -> r.op = -1 /\ r.v = <<a.n>>
-    [] a.k = "jump"  -> r.op = a.op /\ (a.op # OpJump => r.v[1] = a.v[1]) /\ r.off + Last(r.v) = LabelOff(a.l)
-    [] a.k = "loop"  -> r.op = OpLoop /\ r.off - r.v[1] = LabelOff(a.l)
-RoundTrip == done => Len(R) = Len(A) /\ \A j \in 1..Len(A) : Match(A[j], R[j])
-OffsetsIncrease == done => /\ (R # <<>> => R[1].off = 0)
-                           /\ \A j \in 1..(Len(R) - 1) : R[j].off < R[j + 1].off
-                           /\ \A j \in 1..Len(R) : R[j].op # -2
-LabelTable == done => \A l \in 1..Len(labels) : IF Bound(l) THEN labels[l] = LabelOff(l) ELSE labels[l] = -1
-JumpTables == done => \A i \in 1..Len(tables) :
+Match(r, a, x) ==
+  CASE a.k = "inst"  -> x.op = a.op /\ x.v = a.v
+    [] a.k = "const" -> x.op = a.op /\ x.v[1] = a.v[1] /\ PoolAt(pool, x.v[2]) = PConst(a.op, a.v[2])
+    [] a.k = "pad"   -> x.op = -1 /\ x.v = <<a.n>>
+    [] a.k = "jump"  -> x.op = a.op /\ (a.op # OpJump => x.v[1] = a.v[1]) /\ x.off + Last(x.v) = LabelOff(r, a.l)
+    [] a.k = "loop"  -> x.op = OpLoop /\ x.off - x.v[1] = LabelOff(r, a.l)
+RoundTripR(r) == Len(r) = Len(A) /\ \A j \in 1..Len(A) : Match(r, A[j], r[j])              \* Read(Write(is)) = is
+OffsetsIncreaseR(r) == /\ (r # <<>> => r[1].off = 0)
+                       /\ \A j \in 1..(Len(r) - 1) : r[j].off < r[j + 1].off
+                       /\ \A j \in 1..Len(r) : r[j].op # -2                                 \* the reader never fails / stops early
+LabelTableR(r) == \A l \in 1..Len(labels) : IF Bound(l) THEN labels[l] = LabelOff(r, l) ELSE labels[l] = -1
+JumpTablesR(r) == \A i \in 1..Len(tables) :
                  LET e == PoolAt(pool, tables[i].idx) IN
-                 /\ e.t = "jt" /\ e.d = LabelOff(tables[i].d) /\ Len(e.ts) = Len(tables[i].ts)
-                 /\ \A j \in 1..Len(e.ts) : e.ts[j] = LabelOff(tables[i].ts[j])
-LinesOK == done => /\ \A i \in 1..Len(lines) : \E j \in 1..Len(R) : R[j].off = lines[i].off /\ NeedsLoc(R[j].op)
-                   /\ \A i \in 1..(Len(lines) - 1) : lines[i].off < lines[i + 1].off /\ lines[i].loc # lines[i + 1].loc
-Row == [items |-> items, code |-> code, insts |-> R, labels |-> labels, pool |-> pool, lines |-> lines]
-EmitRow == done => PrintT(ToJson(Row))
+                 /\ e.t = "jt" /\ e.d = LabelOff(r, tables[i].d) /\ Len(e.ts) = Len(tables[i].ts)
+                 /\ \A j \in 1..Len(e.ts) : e.ts[j] = LabelOff(r, tables[i].ts[j])
+LinesOKR(r) == /\ \A i \in 1..Len(lines) : \E j \in 1..Len(r) : r[j].off = lines[i].off /\ NeedsLoc(r[j].op)
+               /\ \A i \in 1..(Len(lines) - 1) : lines[i].off < lines[i + 1].off /\ lines[i].loc # lines[i + 1].loc
+RoundTrip == done => RoundTripR(ReadCode(code))
+OffsetsIncrease == done => OffsetsIncreaseR(ReadCode(code))
+LabelTable == done => LabelTableR(ReadCode(code))
+JumpTables == done => JumpTablesR(ReadCode(code))
+LinesOK == done => LinesOKR(ReadCode(code))
+Theorem == done => LET r == ReadCode(code) IN RoundTripR(r) /\ OffsetsIncreaseR(r) /\ LabelTableR(r) /\ JumpTablesR(r) /\ LinesOKR(r)
+(* Theorem and the row in one pass (the configurations use this one; the named parts above localize a failure) *)
+TheoremAndRow == done => LET r == ReadCode(code) IN
+                   /\ RoundTripR(r) /\ OffsetsIncreaseR(r) /\ LabelTableR(r) /\ JumpTablesR(r) /\ LinesOKR(r)
+                   /\ PrintT(ToJson([items |-> items, code |-> code, insts |-> r, labels |-> labels, pool |-> pool, lines |-> lines]))
 ASSUME PrintT(ToJson([optable |-> [i \in 1..Len(OpName) |-> [op |-> i - 1, name |-> OpName[i], fields |-> Fields(i - 1)]]]))
 =============================================================================
